@@ -3,6 +3,8 @@ C02 — the demuxer delivers exactly the units a stream carries, whatever the pa
 Packetisation-independence of the unit bytes; completeness test of PAT/PMT units.
 -/
 import Astits.Spec.RefMux
+import Astits.Proofs.Units
+import Astits.Props.C07
 namespace Astits.C02
 open Spec
 
@@ -40,5 +42,95 @@ theorem pointer_only_incomplete (ptr : Nat) (filler : Bytes) (h : filler.length 
 
 example : isPSICompleteBytes [0, 0x00, 0xb0, 0x0d, 0, 1, 0xc1, 0, 0, 0, 1, 0xf0, 0, 0x2a, 0xb1, 0x04, 0xb2] = true := by decide
 example : isPSICompleteBytes [0, 0x00, 0xb0, 0x0d, 0, 1, 0xc1, 0, 0] = false := by decide
+
+/-! ### unit boundaries in the accumulator -/
+
+/-- on a stream holding only accepted payload packets of `pid`, the pool behaves as that PID's accumulator -/
+theorem pool_is_accumulator (pm : ProgramMap) (pid : Nat) (s : List Packet) (pool : Pool)
+    (hs : ∀ p ∈ s, p.header.pid = pid ∧ p.header.hasPayload = true ∧ p.header.transportErrorIndicator = false) :
+    C07.flushesOf pm pid pool s = (accRun pm pid (pool.get pid) s).1 ∧
+    (C07.queueAfter pm pool s).get pid = (accRun pm pid (pool.get pid) s).2 := by
+  induction s generalizing pool with
+  | nil => simp [C07.flushesOf, C07.queueAfter, accRun]
+  | cons p r ih =>
+    obtain ⟨hpid, hpay, hte⟩ := hs p (by simp)
+    have hr : ∀ x ∈ r, x.header.pid = pid ∧ x.header.hasPayload = true ∧ x.header.transportErrorIndicator = false :=
+      fun x hx => hs x (by simp [hx])
+    have h1 : (poolAdd pm pool p).1 = (accAdd pm pid (pool.get pid) p).1 := by
+      unfold poolAdd; simp [hte, hpay, hpid]
+    have h2 : (poolAdd pm pool p).2.get pid = (accAdd pm pid (pool.get pid) p).2 := by
+      unfold poolAdd; simp [hte, hpay, hpid]
+    have := ih (poolAdd pm pool p).2 hr
+    simp only [C07.flushesOf, C07.queueAfter, accRun, hpid, if_true, h1, this.1, this.2, h2, and_self]
+
+def unitOnPID (pid : Nat) (u : UnitPk) : Prop := ∀ p ∈ u.packets, p.header.pid = pid
+
+/-- **every unit is delivered whole, once, in order (pool level)**: take any stream whose packets on `pid` are the
+packets of well-formed units `us` (a start packet with the unit-start flag, continuation packets without it, counters
+running on modulo 16 within and across units, no announced discontinuity) — interleaved with anything on other
+PIDs. If `pid` is not a table PID (so nothing is flushed early), the non-empty groups handed to the unit parser while
+the stream is read are exactly the units but the last, in order, each once and with all its packets; the last unit is
+what is queued for the end-of-stream drain. -/
+theorem units_flushed (pm : ProgramMap) (pid : Nat) (s : List Packet) (us : List UnitPk)
+    (hnp : (pid == 0 || pm.has pid) = false)
+    (hf : (s.filter fun p => p.header.pid == pid) = us.flatMap UnitPk.packets)
+    (hon : ∀ u ∈ us, unitOnPID pid u) (hc : ChainOK [] us) :
+    (C07.flushesOf pm pid [] s).filter (fun g => !g.isEmpty) = us.dropLast.map UnitPk.packets ∧
+    (us ≠ [] → (C07.queueAfter pm [] s).get pid = (us.getLast?.map UnitPk.packets).getD []) := by
+  have hpk : ∀ p ∈ us.flatMap UnitPk.packets,
+      p.header.pid = pid ∧ p.header.hasPayload = true ∧ p.header.transportErrorIndicator = false := by
+    intro p hp
+    obtain ⟨u, hu, hpu⟩ := List.mem_flatMap.mp hp
+    refine ⟨hon u hu p hpu, ?_⟩
+    -- every packet of a chain is a PlainPayload packet
+    have all : ∀ (q : List Packet) (us : List UnitPk), ChainOK q us → ∀ u ∈ us, ∀ p ∈ u.packets, PlainPayload p := by
+      intro q us
+      induction us generalizing q with
+      | nil => intro _ u hu; cases hu
+      | cons v t ih =>
+        intro ⟨hv, _, ht⟩ u hu p hp
+        rcases List.mem_cons.mp hu with rfl | hu'
+        · obtain ⟨h1, _, h3⟩ := hv
+          rcases List.mem_cons.mp hp with rfl | hp'
+          · exact h1
+          · have cont : ∀ (prev : Nat) (r : List Packet), Continues prev r → ∀ x ∈ r, PlainPayload x := by
+              intro prev r
+              induction r generalizing prev with
+              | nil => intro _ x hx; cases hx
+              | cons y r ihr =>
+                intro ⟨hy, _, _, hr⟩ x hx
+                rcases List.mem_cons.mp hx with rfl | hx'
+                · exact hy
+                · exact ihr _ hr x hx'
+            exact cont _ _ h3 p hp'
+        · exact ih _ ht u hu' p hp
+    have := all [] us hc u hu p hpu
+    exact ⟨this.1, this.2.1⟩
+  have hper := C07.per_pid pm pid s [] [] rfl
+  have hacc := pool_is_accumulator pm pid (us.flatMap UnitPk.packets) [] hpk
+  have hrun := accRun_units pm pid [] us hnp hc
+  have hfl := flushed_units us
+  rw [hper.1, hper.2, hf, hacc.1, hacc.2]
+  simp only [Pool.get, hrun]
+  exact hfl
+
+def exPk (cc : Nat) (pusi : Bool) : Packet :=
+  { header := { continuityCounter := cc, hasAdaptationField := false, hasPayload := true, payloadUnitStartIndicator := pusi,
+                pid := 256, transportErrorIndicator := false, transportPriority := false, transportScramblingControl := 0 },
+    payload := [0] }
+
+/-- the hypotheses are satisfiable: two units of two packets each on PID 256, counters 14, 15, 0, 1 -/
+example : ChainOK [] [⟨exPk 14 true, [exPk 15 false]⟩, ⟨exPk 0 true, [exPk 1 false]⟩] ∧
+    ∀ u ∈ [(⟨exPk 14 true, [exPk 15 false]⟩ : UnitPk), ⟨exPk 0 true, [exPk 1 false]⟩], unitOnPID 256 u := by
+  constructor
+  · refine ⟨⟨?_, rfl, ?_, rfl, rfl, trivial⟩, Or.inl rfl, ⟨?_, rfl, ?_, rfl, rfl, trivial⟩, ?_, trivial⟩
+    · simp [PlainPayload, exPk, pktDI]
+    · simp [PlainPayload, exPk, pktDI]
+    · simp [PlainPayload, exPk, pktDI]
+    · simp [PlainPayload, exPk, pktDI]
+    · exact Or.inr ⟨[exPk 14 true], exPk 15 false, rfl, by simp [exPk], by simp [exPk]⟩
+  · intro u hu
+    simp at hu
+    rcases hu with rfl | rfl <;> simp [unitOnPID, UnitPk.packets, exPk]
 
 end Astits.C02
